@@ -157,7 +157,9 @@ class SimPath:
         data = FS.files[self._r]
         if 'b' in mode:
             return io.BytesIO(data)
-        return io.StringIO(data.decode(encoding or 'utf-8'), newline=newline)
+        # a real text layer over the bytes: decoding happens chunk by chunk while the caller iterates, so an undecodable
+        # byte deep in the file surfaces in the middle of the caller's loop, as it does on a real file
+        return io.TextIOWrapper(io.BytesIO(data), encoding=encoding or 'utf-8', errors=errors, newline=newline)
 
 
 def pathlib_module():
